@@ -127,7 +127,7 @@ theorem rel_loop (aid N : Nat) (now : Int) (l : List VQ) (i : Nat) (a : Auction)
     simp only [tie_ShouldRelease, hcast]
     by_cases hc : q.release ≤ now ∧ q.released = false
     · have hdec : (decide (q.release ≤ now) && !q.released) = true := by grind
-      simp only [hdec, if_true]
+      simp only [hdec, if_true, Bool.not_true, Bool.false_eq_true, if_false]
       by_cases hlast : i + 1 = N
       · have hl : ((i : Int) = (N : Int) - 1) := by omega
         simp only [hl, decide_true, if_true]
@@ -192,7 +192,7 @@ theorem rel_loop (aid N : Nat) (now : Int) (l : List VQ) (i : Nat) (a : Auction)
     · obtain ⟨a', E, h1, h2⟩ := ih (i + 1) a effs hid hq'
       refine ⟨a', E, ?_, ?_⟩
       · have : (decide (q.release ≤ now) && !q.released) = false := by grind
-        simp only [this, Bool.false_eq_true, if_false]
+        simp only [this, Bool.false_eq_true, if_false, Bool.not_false, if_true]
         exact h1
       · intro c w hw hwa hnow
         rw [← h2 c w hw hwa hnow]
